@@ -119,15 +119,45 @@ func Unmarshal(r io.Reader, msg proto.Message) (int64, string, error) {
 		return n, ver, errors.WithStack(ErrInvalidHeaderSize)
 	}
 
-	b := make([]byte, hi.GetBodySize())
-	nbody, err := io.ReadFull(r, b)
-	n += int64(nbody)
+	b, err := readBody(r, uint64(hi.GetBodySize()))
+	n += int64(len(b))
 	if err != nil {
 		return n, ver, errors.WithStack(err)
 	}
 
 	err = proto.Unmarshal(b, msg)
 	return n, ver, errors.WithStack(err)
+}
+
+// maxBodyChunk bounds how much memory readBody allocates ahead of the data it has
+// actually received.
+const maxBodyChunk = 1 << 20
+
+// readBody reads exactly size bytes from r.
+// The buffer grows as data arrives, thus a corrupt body size in a header can
+// not trigger a huge or negative-length allocation.
+//
+// Like io.ReadFull, the error is io.EOF only if no bytes were read, and
+// io.ErrUnexpectedEOF if the stream ends before size bytes were read.
+func readBody(r io.Reader, size uint64) ([]byte, error) {
+	var b []byte
+	for uint64(len(b)) < size {
+		k := size - uint64(len(b))
+		if k > maxBodyChunk {
+			k = maxBodyChunk
+		}
+		l := len(b)
+		b = append(b, make([]byte, k)...)
+		nn, err := io.ReadFull(r, b[l:])
+		b = b[:l+nn]
+		if err != nil {
+			if err == io.EOF && l > 0 {
+				err = io.ErrUnexpectedEOF
+			}
+			return b, err
+		}
+	}
+	return b, nil
 }
 
 // HeaderSize returns the marshaled size of the header for a proto.Message .
